@@ -203,6 +203,32 @@ pub fn check_case(l: &mut Local, case: &Case) {
             ommx::verif::set_dependency_order(Some(perm.clone()));
             let got = sdk(|| msg.evaluate(&st).map_err(|e| format!("{e:#}")));
             ommx::verif::set_dependency_order(None);
+            // the sampled entry point on the same graph (once per graph: under the identity order)
+            if perm.iter().enumerate().all(|(i, p)| *p == i) {
+                l.transitions += 1;
+                let mut samples = v1::Samples::default();
+                samples.add_sample(4, st.clone());
+                ommx::verif::set_dependency_order(Some(perm.clone()));
+                let got2 = sdk(|| msg.evaluate_samples(&samples).map_err(|e| format!("{e:#}")));
+                ommx::verif::set_dependency_order(None);
+                match (&oracle, got2) {
+                    (_, Err(p)) => l.violation("graph/samples/panic", || json!(case), p),
+                    (None, Ok(Ok(_))) => l.violation(
+                        "graph/samples/unevaluable-dependencies-accepted",
+                        || json!(case),
+                        "dependencies are cyclic or reach a variable without value, but evaluate_samples returned a sample set".into(),
+                    ),
+                    (None, Ok(Err(_))) => {}
+                    (Some(_), Ok(Err(e))) => l.violation("graph/samples/evaluable-dependencies-rejected", || json!(case), format!("evaluate_samples failed: {e}")),
+                    (Some(exp), Ok(Ok((ss, _)))) => {
+                        let vals: Option<BTreeMap<u64, f64>> = sdk(|| ss.get(4).map_err(|e| format!("{e:#}"))).ok().and_then(|r| r.ok()).and_then(|s| s.state).map(|s| s.entries.into_iter().collect());
+                        let ok = vals.as_ref().is_some_and(|v| exp.iter().enumerate().all(|(i, x)| v.get(&(DEP_BASE + i as u64)) == Some(&(*x as f64))));
+                        if !ok {
+                            l.violation("graph/samples/wrong-dependent-values", || json!(case), format!("sample set reports {vals:?}, expected dependents {exp:?}"));
+                        }
+                    }
+                }
+            }
             match (oracle, got) {
                 (_, Err(p)) => l.violation("graph/panic", || json!(case), p),
                 (None, Ok(Ok((sol, _)))) => {
@@ -546,6 +572,24 @@ pub fn run(ctx: &Ctx) -> Finish {
             check_case(l, &Case::Fun { f: f.clone(), map: m });
         }
     });
+    // ---- 1c. id extremes: small functions under 1 -> 0, 2 -> u64::MAX, 7 -> 2^32 + 3, 9 -> 5, with maps keyed by them
+    {
+        let e = (1u64 << 32) + 3;
+        let rn = |i: u64| match i { 1 => 0, 2 => u64::MAX, 7 => e, _ => 5 };
+        let ext: Vec<FnRep> = fs.iter().filter(|f| f.n_terms() <= 2).map(|f| super::c01::rename(f, &rn)).collect();
+        let ext_maps: Vec<Vec<(u64, FnRep)>> = vec![
+            vec![(u64::MAX, FnRep::Const(2.0))],
+            vec![(u64::MAX, FnRep::Lin { terms: vec![(0, 1.0), (e, -0.5)], c: 1.0 })],
+            vec![(0, FnRep::Lin { terms: vec![(u64::MAX, 1.0)], c: 0.0 }), (u64::MAX, FnRep::Lin { terms: vec![(0, 1.0)], c: 0.0 })],
+            vec![(e, FnRep::Quad { entries: vec![(u64::MAX, 0, 1.0)], lin: None }), (0, FnRep::Const(-1.0))],
+        ];
+        ctx.par(ext.len(), |l, i| {
+            l.states += 1;
+            for m in &ext_maps {
+                check_case(l, &Case::Fun { f: ext[i].clone(), map: m.clone() });
+            }
+        });
+    }
     // ---- 2. instance level
     let insts = c04_instances(ctx.tier);
     let lin = |terms: Vec<(u64, f64)>, c: f64| FnRep::Lin { terms, c };
@@ -683,7 +727,7 @@ pub fn run(ctx: &Ctx) -> Finish {
     ctx.note("dependency_graphs", json!(graphs_total));
     Finish {
         level: "model_checking",
-        rule: "(1) Function::substitute: function family x every replacement map over keys {1,2,7,9} with each entry from 7 replacement shapes incl. an unnormalised one (8^4 maps incl. the empty one; replacements mention other replaced ids to test simultaneity); (1b) long functions (31..100 terms) under four replacement maps; (2) Instance::substitute: instance family (replaced variables with and without finite bounds that the replacement values exceed) x first map (incl. an unnormalised linear replacement) x optional second map (chain) x states, under every iteration order of the dependency map (hook H1), composed instance compared as polynomials and the Solution compared with the original evaluated at the completed state, and evaluate_samples over two states (both orders) compared with evaluate; log_encode->substitute->evaluate on every bit pattern; (3) every dependency graph on n dependents (each sums any subset of {other dependents, itself, a valued variable, a value-less variable}) x every one of the n! iteration orders through the real Instance::evaluate, oracle = Kahn; watchdog turns a hang into a violation".into(),
+        rule: "(1) Function::substitute: function family x every replacement map over keys {1,2,7,9} with each entry from 7 replacement shapes incl. an unnormalised one (8^4 maps incl. the empty one; replacements mention other replaced ids to test simultaneity); (1b) long functions (31..100 terms) under four replacement maps; (1c) small functions and maps with ids 0 / 2^32+3 / u64::MAX; (2) Instance::substitute: instance family (replaced variables with and without finite bounds that the replacement values exceed) x first map (incl. an unnormalised linear replacement) x optional second map (chain) x states, under every iteration order of the dependency map (hook H1), composed instance compared as polynomials and the Solution compared with the original evaluated at the completed state, and evaluate_samples over two states (both orders) compared with evaluate; log_encode->substitute->evaluate on every bit pattern; (3) every dependency graph on n dependents (each sums any subset of {other dependents, itself, a valued variable, a value-less variable}) x every one of the n! iteration orders through the real Instance::evaluate (and, once per graph, Instance::evaluate_samples), oracle = Kahn; watchdog turns a hang into a violation".into(),
         bounds: json!({"graph_n_max_exhaustive": max_n, "graph_n5": "chains/cycles/diamonds/complete DAG", "replacement_keys": keys, "function_family": fs.len()}),
         exhaustive: true,
     }
